@@ -159,9 +159,22 @@ def run(chk):
     if not ok:
         return chk.finish(obligations=obligations, trusted_base=TRUSTED)
     h = Harness(); m = Model(); rng = chk.rng
-    corpus = chk.corpus()
-    for src in corpus:          # regression cases: text -> expected value in a comment "// = v"
-        pass
+    # ---- exemplars of the recorded findings, replayed first ----
+    for k in chk.known:
+        if k.get("kind") == "const":
+            r = h.compile(k["exemplar"], 0)
+            got = None
+            if r["status"] == "ok":
+                got = [v for v in r["vars"] if unhx(v["name"]) == "k"][0]["def"][1][1]
+            if got != k.get("c_value") and not (k.get("c_value") is None and r["status"] == "err"):
+                chk.fail(k["signature"], k["what_fails"], {"source": k["exemplar"], "value": got, "C": k.get("c_value")})
+        elif k.get("kind") == "stmt":
+            r = h.compile(k["exemplar"], 1)
+            if r["status"] == "ok":
+                states, lay = coexec.init_states(r, 1, seed=1)
+                outs, bad = coexec.run_all(m, "c10", r, states, lay)
+                if outs and outs[0]["stop"].startswith("done") and outs[0]["mem"][0] != k["expect"]["v"]:
+                    chk.fail(k["signature"], k["what_fails"], {"source": k["exemplar"], "stored": outs[0]["mem"][0], "C": k["expect"]["v"]})
     n = chk.scale(1200, 20000)
     for i in range(n):
         e = rand_expr(rng, rng.randint(1, 4))
